@@ -237,6 +237,14 @@ def one_workbook(ctx, spec, meta, order, config='mem', rng=None):
         # cells built so far must still get their edges when the model is used afterwards
         o = wb.outcome(comp.evaluate, poison)
         ctx.count('failed_builds' if o[0] == 'x' else 'poison_did_not_fail')
+        if spec.get('poison_retry'):
+            STATE['reads'] = set()
+            o = wb.outcome(comp.evaluate, poison)
+            ctx.count('retry_of_the_failed_build:' + ('value' if o[0] == 'v' else 'raises'))
+            for key, msg, x in check_read_edges(ctx, comp):
+                STATE['found'].append((key + '/retry-of-a-cell-whose-build-failed', msg + f' [second evaluate({poison!r}) '
+                                       f'after its build failed; formula {dict(spec["sheets"])[poison.rsplit("!", 1)[0]][poison.rsplit("!", 1)[1]]}]', x))
+            STATE['reads'] = set()
     for k, a in enumerate(order):
         spelled = a
         if poison and ':' not in a:
@@ -349,7 +357,13 @@ def run(ctx):
             spec = dict(spec, sheets=[[s, dict(c)] for s, c in spec['sheets']])
             c1, c2 = p1.rsplit('!', 1)[1], p2.rsplit('!', 1)[1]
             bad = '[1]Other!A1'
-            variant = (i // 3) % 4
+            variant = (i // 3) % 5
+            if variant == 4:
+                # the reference that cannot be built is not read for its value: the second evaluate of the cell
+                # succeeds, and what it reads then needs its edges like any other read
+                bad = rng.choice(['ROW(NoSuchSheet!A5)', 'COLUMN(NoSuchSheet!B7)', 'ROW([1]Other!A3)'])
+                spec['poison_retry'] = True
+                variant = rng.randrange(3)
             if variant == 3:
                 # the unbuildable reference sits one level down, in a precedent that comes first
                 spec['sheets'][0][1]['A21'] = f'={bad}+1'
